@@ -373,7 +373,11 @@ func (c *C09Case) run() string {
 		if m := unchanged(); m != "" {
 			return desc + ": refused, but " + m
 		}
-		if Dst != nil && (d.IsFloat() || d.IsComplex()) {
+		lateRefusal := c.A.L.Final == "clone" || (c.B != nil && c.B.L.Final == "clone") // (an operand that owns storage with gaps is refused when the operands are handed to BLAS, after the destination has been prepared)
+		if lateRefusal {
+			rec.Class("refusal:operand-owning-gaps")
+		}
+		if Dst != nil && (d.IsFloat() || d.IsComplex()) && !lateRefusal {
 			// (an element type the engine does not multiply is refused by the engine, after the destination has
 			// been prepared - reshaped, a pending transposition dropped; the statement speaks of the operands and
 			// of results, not of the destination of a refused call)
@@ -511,7 +515,7 @@ func genVecForm(rt *rapid.T, n int, label string) []int {
 	return []int{1, n}
 }
 
-var c09Layouts = []string{"contig", "lazyT", "sliced", "stepsliced", "materialized", "physT", "Tsliced", "leadsliced", "picked"}
+var c09Layouts = []string{"contig", "lazyT", "sliced", "stepsliced", "materialized", "physT", "Tsliced", "leadsliced", "picked", "clonedview"}
 
 func c09Values(rt *rapid.T, shape []int, lk string, label string) Opnd {
 	return genOpnd(rt, shape, lk, -3, 4, 0, label)
